@@ -406,8 +406,8 @@ impl Property for P {
         let ix = tiny_index(tier.pick(14, 18));
         vec![
             Workload::new(if tier == Tier::Quick { "tiny-all-cutsets-14" } else { "tiny-all-cutsets-18" }, ix.total, true, format!("{} codings of <= {} bytes, every cut set, 6 variants", ix.plans.len(), tier.pick(14, 18))),
-            Workload::new("grammar-boundary-cuts", tier.pick(500, 20_000), false, "grammar codings x single/pair cuts near token boundaries"),
-            Workload::new("random-codings", tier.pick(1_500, 60_000), false, "random codings beyond the small scope"),
+            Workload::new("grammar-boundary-cuts", tier.pick(500, 60_000), false, "grammar codings x single/pair cuts near token boundaries"),
+            Workload::new("random-codings", tier.pick(1_500, 400_000), false, "random codings beyond the small scope"),
         ]
     }
     fn run_case(&self, wl: &str, idx: u64, seed: u64, rec: &mut Rec) {
